@@ -351,6 +351,23 @@ flat = P.build(d, 'flat')
 for fn, real, tier, kw in contracts:
     P.contract(fn, real, tier=tier, **kw)
 
+# ---------------------------------------------------------------------------------------------------------------------------
+# half formats (packHalf1x16/2x16/4x16, packHalf<L>, their unpacks): the conversion kernels and their contracts belong to property
+# C07; the same contracts are part of this property too ("every pack/unpack pair"), so they are re-enforced here on C07's driver
+import importlib as _il, copy as _cp
+_c07 = _il.import_module('C07').P
+_hb = {}
+for _c in _c07.contracts:
+    if not (_c.fn.startswith(('glm_packHalf', 'glm_unpackHalf', 'glm_toFloat16', 'glm_half_roundtrip')) and _c.sig is None and not _c.replace):
+        continue
+    _b0 = _c07.builds[_c.build]
+    if _b0.tag not in _hb:
+        _hb[_b0.tag] = P.build(_b0.driver, _b0.mode, defines=_b0.defines, flags=_b0.flags, tag='c06_half_' + _b0.tag)
+    _c2 = _cp.copy(_c)
+    _c2.build = _hb[_b0.tag].tag
+    _c2.real = '[half formats, shared with C07] ' + _c.real
+    P.contracts.append(_c2)
+
 P.level_text = ('every obligation is a contract clause on the code clang extracts from /repo, discharged by CBMC bit-precisely: '
                 'a symbolic packed word stands for every code of every field at once (2^8 .. 2^64 words), a symbolic float for all '
                 '2^32 bit patterns; clauses: pack(unpack(p)) == p on canonical words, unpack(pack(unpack(p))) bit-equal to unpack(p) on '
